@@ -17,6 +17,12 @@ def vrun(profile, quick, thorough, **kw):
 
 
 PROPS = {
+    "C01": {
+        "workloads": [vrun("c01", 4000, 80000), vrun("general", 1500, 30000)],
+        "rule": "each real run's raw event stream is replayed into every stats pipeline (Summarize<Normalize<Basic>>, the same under FailOnSkipped, under Repeat::failed / Repeat::skipped, Normalize<Libtest> incl. its suite line, Tee, Or with constant predicate); non-trivial = the run contains a failed/skipped step, a failed hook or a parser error; distinct by (pipeline, per-attempt outcome shape [step failed, hook failed, skipped, retries left])",
+        "floor": {"quick": 200, "thorough": 1000},
+        "assumptions": VRUN_ASSUME + ["the verdict oracle is written from the statement over the raw stream; the legacy rule (any Hook::Failed) is computed only to classify a mismatch as the recorded finding"],
+    },
     "C02": {
         "workloads": [vrun("c02", 4000, 80000), vrun("general", 1500, 30000)],
         "rule": "case = seeded features x outcome plan x config x schedule run on the real runner; an attempt is non-trivial if it has >=2 steps or a hook or a failure AND a foreign scenario's event interleaved inside it; distinct by (feature-bg depth, rule-bg depth, failing position, hooks present, retry index, hook failed)",
